@@ -11,6 +11,7 @@
 #include <stdlib.h>
 #include <string.h>
 #include <stdint.h>
+#include <unistd.h>
 
 static int hexv(int c) { return c <= '9' ? c - '0' : (c | 32) - 'a' + 10; }
 static uint64_t rng_s;
@@ -68,7 +69,8 @@ int main(void)
 		default: r = LZMA_PROG_ERROR;
 		}
 		if (r != LZMA_OK) { printf("%d 0 0 0 -\n", (int)r); fflush(stdout); lzma_end(&s); continue; }
-		size_t ip = 0, op = 0; unsigned calls = 0; int stall = 0, finishing = 0;
+		size_t ip = 0, op = 0; unsigned calls = 0; int stall = 0, finishing = 0, idle = 0;
+		alarm(kind == 1 ? 25 : 120);
 		while (1) {
 			size_t il, ol;
 			switch (mode) {
@@ -98,7 +100,10 @@ int main(void)
 				if (++stall > 50) break;
 				continue;
 			}
+			if (r == LZMA_NO_CHECK || r == LZMA_UNSUPPORTED_CHECK || r == LZMA_GET_CHECK) { r = LZMA_OK; continue; }
 			if (r != LZMA_OK) break;
+			// a caller that offers nothing new must be told (BUF_ERROR) after finitely many calls
+			if (di == 0 && dd == 0 && (il == n - ip) && finishing) { if (++idle > (kind == 1 ? 150 : 3000)) { r = 98; break; } } else idle = 0;
 			if (calls > 80000000) { r = 99; break; }
 		}
 		printf("%d %llu %llu %u ", (int)r, (unsigned long long)s.total_in, (unsigned long long)s.total_out, calls);
